@@ -156,20 +156,21 @@ open ArchSim ArchSim.Rv
 /-- Refinement with a bound on the number of sequential steps: as long as the pipeline is neither
     done nor faulted, it has performed at most `kstar + 1` correct-path fetches, where `kstar` is any
     index at which the sequential machine is done or stuck at a fault. -/
-theorem refine_run_bound (p0 : PSt) (hI : PInv p0) (hz : p0.hazard = true) (h0 : absF p0 = none)
+theorem refine_run_bound_raw (p0 : PSt) (hI : PInv p0) (h0 : absF p0 = none)
     (kstar : Nat)
     (hh : singleDone (seqRun kstar (abs p0)) = true ∨ (seqFault (seqRun kstar (abs p0))).isSome = true) :
-    ∀ n, runOK n p0 → (∀ m, m < n → isDone (pipeRun m p0) = false) →
+    ∀ n, runOK n p0 → (∀ m, m < n → RawFree (pipeRun m p0)) →
+      (∀ m, m < n → isDone (pipeRun m p0) = false) →
       ∃ k, k ≤ kstar + 1 ∧ SimP (abs (pipeRun n p0)) (seqRun k (abs p0)) ∧
         (k ≤ kstar ∨ (absF (pipeRun n p0)).isSome = true)
-  | 0, _, _ => ⟨0, Nat.zero_le _, SimP.rfl' _, Or.inl (Nat.zero_le _)⟩
-  | n + 1, hr, hnd => by
+  | 0, _, _, _ => ⟨0, Nat.zero_le _, SimP.rfl' _, Or.inl (Nat.zero_le _)⟩
+  | n + 1, hr, hraw, hnd => by
     obtain ⟨hr', hf⟩ := runOK_succ hr
     obtain ⟨k, hk, hsim, hdis⟩ :=
-      refine_run_bound p0 hI hz h0 kstar hh n hr' (fun m hm => hnd m (Nat.lt_succ_of_lt hm))
+      refine_run_bound_raw p0 hI h0 kstar hh n hr' (fun m hm => hraw m (Nat.lt_succ_of_lt hm))
+        (fun m hm => hnd m (Nat.lt_succ_of_lt hm))
     have hIn := PInv_run p0 hI n hr'
-    have hzn : (pipeRun n p0).hazard = true := by rw [hazard_run, hz]
-    obtain ⟨a1, a2, a3⟩ := abs_step (pipeRun n p0) hIn hzn hf
+    obtain ⟨a1, a2, a3⟩ := abs_step_raw (pipeRun n p0) hIn (hraw n (Nat.lt_succ_self n)) hf
     have hcA : FetchSound (abs (pipeRun n p0)).imem := by rw [abs_imem]; exact hIn.icoh.fetchSound
     have hcS : FetchSound (seqRun k (abs p0)).imem :=
       (ICoh_seqRun (abs p0) (by rw [abs_imem]; exact hI.icoh) k).fetchSound
@@ -201,6 +202,15 @@ theorem refine_run_bound (p0 : PSt) (hI : PInv p0) (hz : p0.hazard = true) (h0 :
         rcases hh with h | h
         · rw [← singleDone_congr hsim, hnd'] at h; cases h
         · exact h
+
+/-- `refine_run_bound_raw` for a pipeline with hazard detection on. -/
+theorem refine_run_bound (p0 : PSt) (hI : PInv p0) (hz : p0.hazard = true) (h0 : absF p0 = none)
+    (kstar : Nat)
+    (hh : singleDone (seqRun kstar (abs p0)) = true ∨ (seqFault (seqRun kstar (abs p0))).isSome = true)
+    (n : Nat) (hr : runOK n p0) (hnd : ∀ m, m < n → isDone (pipeRun m p0) = false) :
+    ∃ k, k ≤ kstar + 1 ∧ SimP (abs (pipeRun n p0)) (seqRun k (abs p0)) ∧
+      (k ≤ kstar ∨ (absF (pipeRun n p0)).isSome = true) :=
+  refine_run_bound_raw p0 hI h0 kstar hh n hr (rawFree_run_of_hazard p0 hI hz n hr) hnd
 
 end ArchSim.Pipe
 
@@ -287,20 +297,22 @@ open ArchSim ArchSim.Rv
 /-- Refinement, with the additional information that the sequential machine was not done at any
     earlier step (every correct-path fetch of a pipeline that is not done happens from a sequential
     state that is not done). -/
-theorem refine_run_first (p0 : PSt) (hI : PInv p0) (hz : p0.hazard = true) :
-    ∀ n, runOK n p0 → (∀ m, m < n → isDone (pipeRun m p0) = false) →
+theorem refine_run_first_raw (p0 : PSt) (hI : PInv p0) :
+    ∀ n, runOK n p0 → (∀ m, m < n → RawFree (pipeRun m p0)) →
+      (∀ m, m < n → isDone (pipeRun m p0) = false) →
       ∃ k, k ≤ n ∧ SimP (abs (pipeRun n p0)) (seqRun k (abs p0)) ∧
         (∀ j, j < k → singleDone (seqRun j (abs p0)) = false) ∧
-        retireLog n p0 ++ absLog (pipeRun n p0) = absLog p0 ++ seqTrace k (abs p0)
-  | 0, _, _ => ⟨0, Nat.le_refl 0, SimP.rfl' _, fun j hj => absurd hj (Nat.not_lt_zero j),
-      by simp [retireLog, seqTrace, pipeRun]⟩
-  | n + 1, hr, hnd => by
+        retireLog n p0 ++ absLog (pipeRun n p0) = absLog p0 ++ seqTrace k (abs p0) ∧
+        (∀ j, j < k → seqFault (seqRun j (abs p0)) = none ∨ (absF (pipeRun n p0)).isSome = true)
+  | 0, _, _, _ => ⟨0, Nat.le_refl 0, SimP.rfl' _, fun j hj => absurd hj (Nat.not_lt_zero j),
+      by simp [retireLog, seqTrace, pipeRun], fun j hj => absurd hj (Nat.not_lt_zero j)⟩
+  | n + 1, hr, hraw, hnd => by
     obtain ⟨hr', hf⟩ := runOK_succ hr
-    obtain ⟨k, hk, hsim, hfirst, hlog⟩ :=
-      refine_run_first p0 hI hz n hr' (fun m hm => hnd m (Nat.lt_succ_of_lt hm))
+    obtain ⟨k, hk, hsim, hfirst, hlog, hnf⟩ :=
+      refine_run_first_raw p0 hI n hr' (fun m hm => hraw m (Nat.lt_succ_of_lt hm))
+        (fun m hm => hnd m (Nat.lt_succ_of_lt hm))
     have hIn := PInv_run p0 hI n hr'
-    have hzn : (pipeRun n p0).hazard = true := by rw [hazard_run, hz]
-    obtain ⟨a1, _, a3⟩ := abs_step (pipeRun n p0) hIn hzn hf
+    obtain ⟨a1, a2, a3⟩ := abs_step_raw (pipeRun n p0) hIn (hraw n (Nat.lt_succ_self n)) hf
     have hcA : FetchSound (abs (pipeRun n p0)).imem := by rw [abs_imem]; exact hIn.icoh.fetchSound
     have hcS : FetchSound (seqRun k (abs p0)).imem :=
       (ICoh_seqRun (abs p0) (by rw [abs_imem]; exact hI.icoh) k).fetchSound
@@ -313,21 +325,44 @@ theorem refine_run_first (p0 : PSt) (hI : PInv p0) (hz : p0.hazard = true) :
     rw [hrl, a3, ← List.append_assoc, hlog]
     cases hfo : fetchOK (pipeRun n p0) with
     | false =>
-      rw [hfo] at a1
-      simp only [Bool.false_eq_true, if_false] at a1 ⊢
-      exact ⟨k, Nat.le_succ_of_le hk, a1.trans hsim, hfirst, by simp⟩
+      rw [hfo] at a1 a2
+      simp only [Bool.false_eq_true, if_false] at a1 a2 ⊢
+      refine ⟨k, Nat.le_succ_of_le hk, a1.trans hsim, hfirst, by simp, fun j hj => ?_⟩
+      show _ ∨ (absF (step (pipeRun n p0)).p).isSome = true
+      rw [a2]; exact hnf j hj
     | true =>
-      rw [hfo] at a1
-      simp only [if_true] at a1 ⊢
-      obtain ⟨c1, _⟩ := seqStep_simP hsim hcA hcS
+      rw [hfo] at a1 a2
+      simp only [if_true] at a1 a2 ⊢
+      obtain ⟨c1, c2⟩ := seqStep_simP hsim hcA hcS
       have hnd' := not_singleDone_of_fetchOK _ hfo (hnd n (Nat.lt_succ_self n))
-      refine ⟨k + 1, Nat.succ_le_succ hk, a1.trans c1, fun j hj => ?_, ?_⟩
+      have hlive := ((fetchOK_iff _).1 hfo).2.1
+      refine ⟨k + 1, Nat.succ_le_succ hk, a1.trans c1, fun j hj => ?_, ?_, fun j hj => ?_⟩
       · by_cases hjk : j < k
         · exact hfirst j hjk
         · have : j = k := by omega
           subst this
           rw [← singleDone_congr hsim]; exact hnd'
       · rw [seqLog_congr hsim hcA hcS, List.append_assoc]; rfl
+      · show _ ∨ (absF (step (pipeRun n p0)).p).isSome = true
+        by_cases hjk : j < k
+        · rcases hnf j hjk with h | h
+          · exact Or.inl h
+          · rw [absF_none_of_live _ hlive] at h; cases h
+        · have : j = k := by omega
+          subst this
+          rw [a2, c2]
+          cases hq : seqFault (seqRun j (abs p0)) with
+          | none => exact Or.inl rfl
+          | some _ => exact Or.inr rfl
+
+/-- `refine_run_first_raw` for a pipeline with hazard detection on. -/
+theorem refine_run_first (p0 : PSt) (hI : PInv p0) (hz : p0.hazard = true) (n : Nat) (hr : runOK n p0)
+    (hnd : ∀ m, m < n → isDone (pipeRun m p0) = false) :
+    ∃ k, k ≤ n ∧ SimP (abs (pipeRun n p0)) (seqRun k (abs p0)) ∧
+      (∀ j, j < k → singleDone (seqRun j (abs p0)) = false) ∧
+      retireLog n p0 ++ absLog (pipeRun n p0) = absLog p0 ++ seqTrace k (abs p0) ∧
+      (∀ j, j < k → seqFault (seqRun j (abs p0)) = none ∨ (absF (pipeRun n p0)).isSome = true) :=
+  refine_run_first_raw p0 hI n hr (rawFree_run_of_hazard p0 hI hz n hr) hnd
 
 theorem singleDone_of_isDone (p : PSt) (h : isDone p = true) : singleDone p.st = true := by
   unfold isDone at h; unfold singleDone
@@ -335,6 +370,32 @@ theorem singleDone_of_isDone (p : PSt) (h : isDone p = true) : singleDone p.st =
   rcases h with h | h
   · exact Or.inl h
   · exact Or.inr h.2
+
+/-- FINAL STATE, general form (any setting of the hazard flag, decode free of read-after-write
+    hazards along the run). -/
+theorem final_state_raw (st : St) (hzf : Bool) (hp : ProgOK st.imem) (hc : ICoh st.imem)
+    (hx : st.exitCode = none) (n : Nat) (hr : runOK n (PSt.init st hzf))
+    (hraw : ∀ m, m < n → RawFree (pipeRun m (PSt.init st hzf)))
+    (hd : isDone (pipeRun n (PSt.init st hzf)) = true)
+    (hprev : ∀ m, m < n → isDone (pipeRun m (PSt.init st hzf)) = false) :
+    ∃ k, k ≤ n ∧ SimP (pipeRun n (PSt.init st hzf)).st (seqRun k st) ∧ singleDone (seqRun k st) = true ∧
+      (∀ j, j < k → singleDone (seqRun j st) = false) ∧
+      retireLog n (PSt.init st hzf) = seqTrace k st ∧
+      (∀ j, j < k → seqFault (seqRun j st) = none) := by
+  have hI := PInv_init st hzf hp hc
+  obtain ⟨k, hk, hsim, hfirst, hlog, hnf⟩ := refine_run_first_raw _ hI n hr hraw hprev
+  have hdr := drained_at_first_done _ hI hx n hr hd hprev
+  have hlogN := absLog_of_drained _ hdr
+  have hFN : absF (pipeRun n (PSt.init st hzf)) = none := by
+    unfold absF; rw [absC_of_drained _ hdr]; rfl
+  rw [abs_of_drained _ hdr, abs_init] at hsim
+  rw [abs_init] at hfirst hnf
+  rw [hlogN, abs_init, absLog_init] at hlog
+  refine ⟨k, hk, hsim, by rw [← singleDone_congr hsim]; exact singleDone_of_isDone _ hd, hfirst,
+    by simpa using hlog, fun j hj => ?_⟩
+  rcases hnf j hj with h | h
+  · exact h
+  · rw [hFN] at h; cases h
 
 /-- FINAL STATE. When the simulation loop `while not is_done(): step()` stops after `n` cycles
     without a fault, the physical architectural state is observationally the state of the sequential
@@ -345,14 +406,9 @@ theorem final_state_init (st : St) (hp : ProgOK st.imem) (hc : ICoh st.imem) (hx
     (hprev : ∀ m, m < n → isDone (pipeRun m (PSt.init st true)) = false) :
     ∃ k, k ≤ n ∧ SimP (pipeRun n (PSt.init st true)).st (seqRun k st) ∧ singleDone (seqRun k st) = true ∧
       (∀ j, j < k → singleDone (seqRun j st) = false) ∧
-      retireLog n (PSt.init st true) = seqTrace k st := by
-  have hI := PInv_init st true hp hc
-  obtain ⟨k, hk, hsim, hfirst, hlog⟩ := refine_run_first _ hI rfl n hr hprev
-  have hlogN := absLog_at_first_done _ hI hx n hr hd hprev
-  rw [abs_at_first_done _ hI hx n hr hd hprev, abs_init] at hsim
-  rw [abs_init] at hfirst
-  rw [hlogN, abs_init, absLog_init] at hlog
-  exact ⟨k, hk, hsim, by rw [← singleDone_congr hsim]; exact singleDone_of_isDone _ hd, hfirst,
-    by simpa using hlog⟩
+      retireLog n (PSt.init st true) = seqTrace k st ∧
+      (∀ j, j < k → seqFault (seqRun j st) = none) :=
+  final_state_raw st true hp hc hx n hr
+    (rawFree_run_of_hazard _ (PInv_init st true hp hc) rfl n hr) hd hprev
 
 end ArchSim.Pipe
